@@ -68,6 +68,44 @@ func c12Decls() []c12Decl {
 // the designatable paths of the project tree (bit i of the tree mask = present)
 var c12Paths = []string{"o1", "dir/o2", "a.gen", "b.gen", "gen/x.o", "o3", "sub/o4", "sub/o5", "o1.log", "dir2.tar", ".cache/y.o", "cache/y.o", "o[1].txt", "o1.txt", "ready?.md", "readyX.md", "@lnk", "@dlnk"}
 
+// c12Relevant: indexes into c12Paths of the paths a declaration designates or could be confused with
+func c12Relevant(id string) []int {
+	pi := func(names ...string) []int {
+		var out []int
+		for _, n := range names {
+			for i, p := range c12Paths {
+				if p == n {
+					out = append(out, i)
+				}
+			}
+		}
+		return out
+	}
+	switch id {
+	case "lit-file", "lit-file-prefix-sibling":
+		return pi("o1", "o1.log")
+	case "lit-dir", "lit-nested", "lit-dir-prefix-sibling", "lit-link-into-dir":
+		return pi("dir/o2", "dir2.tar", "@lnk")
+	case "glob-top":
+		return pi("a.gen", "b.gen")
+	case "glob-nested", "glob-dot-slash":
+		return pi("gen/x.o")
+	case "glob-hidden-dir":
+		return pi(".cache/y.o", "cache/y.o")
+	case "var-rel":
+		return pi("o3")
+	case "var-rel-nested", "var-join":
+		return pi("sub/o4", "sub/o5")
+	case "lit-bracket":
+		return pi("o[1].txt", "o1.txt")
+	case "lit-question":
+		return pi("ready?.md", "readyX.md")
+	case "lit-link-dangling":
+		return pi("@dlnk")
+	}
+	return nil // dangerous declarations: the whole tree is at stake, the full tree is the interesting one
+}
+
 type c12Case struct {
 	Decls     []string `json:"decls"` // IDs
 	Mask      int      `json:"mask"`
@@ -135,14 +173,36 @@ func c12Cases(tier string) []c12Case {
 	for i := range c12Paths {
 		masks = append(masks, 1<<i)
 	}
-	if tier == "thorough" {
-		masks = nil
-		for m := 0; m <= full; m++ {
-			masks = append(masks, m)
-		}
-	}
 	var out []c12Case
 	for _, s := range sets {
+		masks := masks
+		if tier == "thorough" {
+			// every subset of the paths the declarations of this set can touch (designated ones and
+			// their look-alikes) is absent in turn, all other paths present
+			rel := map[int]bool{}
+			for _, id := range s {
+				for _, i := range c12Relevant(id) {
+					rel[i] = true
+				}
+			}
+			var idx []int
+			for i := range c12Paths {
+				if rel[i] {
+					idx = append(idx, i)
+				}
+			}
+			masks = nil
+			for sub := 0; sub < 1<<len(idx); sub++ {
+				m := full
+				for k, i := range idx {
+					if sub&(1<<k) != 0 {
+						m &^= 1 << i
+					}
+				}
+				masks = append(masks, m)
+			}
+			masks = append(masks, 0)
+		}
 		for _, m := range masks {
 			for _, ct := range []bool{false, true} {
 				if ct && m != full && tier != "thorough" {
